@@ -14,16 +14,19 @@ Inductive wop :=
 Inductive c03_read :=
 | QGet (k : bytes) (rev : N) (out : get_resp)
 | QList (a b : bytes) (rev : N) (limit : Z) (out : list_resp)
-| QCount (a b : bytes) (out : count_resp).
+| QCount (a b : bytes) (out : count_resp)
+| QStream (a b : bytes) (rev : N) (out : list smsg).   (* ListByStream (Enc a 0) (Enc b 0) rev: all messages *)
 
-Record c03_phase := mk_phase { ph_dump : raw_store; ph_cur : N; ph_reads : list c03_read }.
+(* one phase: the writes acknowledged since the previous phase, the revision of a Compact issued after
+   them (0 = none), then — with no write in flight completing — the raw dump, the committed revision
+   and the reads.  A write that is still in flight (allocated, not yet stored) is not listed; a write
+   that is stored and acknowledged but not yet published (revision > ph_cur) is. *)
+Record c03_phase := mk_phase { ph_ops : list wop; ph_floor : N; ph_dump : raw_store; ph_cur : N; ph_reads : list c03_read }.
 
 Record c03_case := mk_c03 {
   c_ck : bytes;                 (* the compact key of the backend's configuration *)
   c_compat : bool;              (* Config.EnableEtcdCompatibility *)
-  c_ops1 : list wop; c_ph1 : c03_phase;
-  c_ops2 : list wop; c_floor : N;     (* revision in the Compact response (0 = no compaction in phase 2) *)
-  c_ph2 : c03_phase }.
+  c_phases : list c03_phase }.
 
 (* ---------- client-visible history ---------- *)
 Definition op_version (o : wop) : list (@vrec (option bytes)) :=
@@ -121,6 +124,48 @@ Definition count_resp_eqb (x y : count_resp) : bool :=
   | _, _ => false
   end.
 
+(* ---------- streams ---------- *)
+Definition smsg_eqb (x y : smsg) : bool :=
+  (m_rev x =? m_rev y) && list_eqb okv_eqb (m_kvs x) (m_kvs y) && Bool.eqb (m_more x) (m_more y) && Bool.eqb (m_err x) (m_err y).
+
+(* is `out` an interleaving of the lists `ls`?  Greedy: sound, and complete when no two lists can
+   offer the same message at once (partitions carry disjoint keys) *)
+Fixpoint take_head (x : smsg) (ls : list (list smsg)) : option (list (list smsg)) :=
+  match ls with
+  | [] => None
+  | [] :: t => match take_head x t with Some t' => Some ([] :: t') | None => None end
+  | (y :: l) :: t =>
+      if smsg_eqb x y then Some (l :: t)
+      else match take_head x t with Some t' => Some ((y :: l) :: t') | None => None end
+  end.
+
+Fixpoint interleave_check (ls : list (list smsg)) (out : list smsg) : bool :=
+  match out with
+  | [] => forallb (fun l => match l with [] => true | _ => false end) ls
+  | x :: o => match take_head x ls with Some ls' => interleave_check ls' o | None => false end
+  end.
+
+Definition stream_check (r : stream_res) (out : list smsg) : bool :=
+  match r with
+  | StPanic => false
+  | StOk pp term =>
+      match rev out with
+      | [] => false
+      | last :: rdata => smsg_eqb last term && interleave_check pp (rev rdata)
+      end
+  end.
+
+(* one stream: data batches all carry the read revision, are marked `more`, carry no error and at
+   least one kv; exactly one terminator, last, without error (no faults are injected) *)
+Definition stream_shape (R : N) (out : list smsg) : bool :=
+  match rev out with
+  | [] => false
+  | last :: rdata =>
+      (m_rev last =? R) && negb (m_more last) && negb (m_err last) && (match m_kvs last with [] => true | _ => false end)
+      && forallb (fun m => (m_rev m =? R) && m_more m && negb (m_err m) && (match m_kvs m with [] => false | _ => true end)) rdata
+  end.
+Definition stream_kvs (out : list smsg) : list okv := flat_map m_kvs out.
+
 (* ---------- check: the model on the dump reproduces every response ---------- *)
 Definition read_check (ck : bytes) (compat : bool) (ph : c03_phase) (q : c03_read) : bool :=
   let s := ph_dump ph in
@@ -129,6 +174,7 @@ Definition read_check (ck : bytes) (compat : bool) (ph : c03_phase) (q : c03_rea
   | QGet k rev out => get_resp_eqb (get_model s (ph_cur ph) k rev) out
   | QList a b rev limit out => list_resp_eqb (list_model s fv single_part (ph_cur ph) a b rev limit) out
   | QCount a b out => count_resp_eqb (count_model s fv single_part compat (ph_cur ph) a b) out
+  | QStream a b rev out => stream_check (stream_model s fv single_part (ph_cur ph) (encode a 0) (encode b 0) rev) out
   end.
 
 Definition phase_check (ck : bytes) (compat : bool) (ph : c03_phase) : bool :=
@@ -137,11 +183,20 @@ Definition phase_check (ck : bytes) (compat : bool) (ph : c03_phase) : bool :=
 Definition floor_rec_ok (ck : bytes) (d : raw_store) (F : N) : bool :=
   if F =? 0 then true else opt_eqb beqb (lookup ck d) (Some (be64 F)).
 
-Definition c03_check (c : c03_case) : bool :=
-  phase_check (c_ck c) (c_compat c) (c_ph1 c) && phase_check (c_ck c) (c_compat c) (c_ph2 c)
-  && layout_ok (ph_dump (c_ph1 c)) (hist_versions (c_ops1 c))
-  && compact_layout_ok (ph_dump (c_ph2 c)) (hist_versions (c_ops1 c ++ c_ops2 c)) (c_floor c)
-  && floor_rec_ok (c_ck c) (ph_dump (c_ph2 c)) (c_floor c).
+(* phases in order; acc = operations of earlier phases, F = highest compaction floor so far *)
+Fixpoint phases_check (ck : bytes) (compat : bool) (acc : list wop) (F : N) (phs : list c03_phase) : bool :=
+  match phs with
+  | [] => true
+  | ph :: t =>
+      let ops := acc ++ ph_ops ph in
+      let F' := N.max F (ph_floor ph) in
+      phase_check ck compat ph
+      && compact_layout_ok (ph_dump ph) (hist_versions ops) F'
+      && floor_rec_ok ck (ph_dump ph) F'
+      && phases_check ck compat ops F' t
+  end.
+
+Definition c03_check (c : c03_case) : bool := phases_check (c_ck c) (c_compat c) [] 0 (c_phases c).
 
 (* ---------- oracle: the property on the implementation's responses ---------- *)
 Definition eff_rev (rev cur : N) : N := if rev =? 0 then cur else rev.
@@ -180,6 +235,9 @@ Definition read_meets (rng : bytes -> bytes -> list okv -> list okv)
       | CResp _ n => n =? N.of_nat (length (rng a b (snapshot_spec hv cur)))
       | _ => false
       end
+  | QStream a b rev out =>
+      stream_shape (eff_rev rev cur) out
+      && list_eqb okv_eqb (stream_kvs out) (rng a b (snapshot_spec hv (eff_rev rev cur)))   (* one partition: in key order *)
   end.
 
 Definition bounds_alpha (q : c03_read) : bool :=
@@ -187,19 +245,25 @@ Definition bounds_alpha (q : c03_read) : bool :=
   | QGet _ _ _ => true
   | QList a b _ _ _ => alphab a && alphab b
   | QCount a b _ => alphab a && alphab b
+  | QStream a b _ _ => alphab a && alphab b
   end.
 
-(* reads the property speaks about: a < b, revision already readable and not below the floor, limit in 0..2^63-2 *)
-Definition in_scope (compat : bool) (cur floor : N) (q : c03_read) : bool :=
+Definition max_rev (hv : list (@vrec (option bytes))) : N := fold_right (fun x m => N.max (vr_rev x) m) 0 hv.
+
+(* reads the property speaks about: a < b, revision already reported readable and not below the floor,
+   limit in 0..2^63-2.  Get with revision 0 reads the latest *stored* version (range.go:92-94), whatever
+   has been published: it is a read at a reported revision only when nothing newer than cur is stored. *)
+Definition in_scope (compat : bool) (hv : list (@vrec (option bytes))) (cur floor : N) (q : c03_read) : bool :=
   match q with
-  | QGet _ rev _ => (eff_rev rev cur <=? cur) && (floor <=? eff_rev rev cur)
+  | QGet _ rev _ => (eff_rev rev cur <=? cur) && (floor <=? eff_rev rev cur) && ((0 <? rev) || (max_rev hv <=? cur))
   | QList a b rev limit _ =>
       bltb a b && (eff_rev rev cur <=? cur) && (floor <=? eff_rev rev cur) && (0 <=? limit)%Z && (limit <? max_i64)%Z
-  | QCount a b _ => compat && bltb a b
+  | QCount a b _ => compat && bltb a b && (floor <=? cur)
+  | QStream a b rev _ => bltb a b && (eff_rev rev cur <=? cur) && (floor <=? eff_rev rev cur)
   end.
 
 Definition read_verdict (hv : list (@vrec (option bytes))) (compat : bool) (cur floor : N) (q : c03_read) : option N :=
-  if negb (in_scope compat cur floor q) then None
+  if negb (in_scope compat hv cur floor q) then None
   else if read_meets in_range hv cur q then None
   else if negb (bounds_alpha q) && read_meets in_range_enc hv cur q then Some 2   (* finding C03-F2 *)
   else if read_meets in_range (marker_as_deletion hv) cur q then Some 1            (* finding C03-F1 *)
@@ -217,35 +281,46 @@ Definition worst (x y : option N) : option N :=
 Definition phase_verdict (hv : list (@vrec (option bytes))) (compat : bool) (floor : N) (ph : c03_phase) : option N :=
   fold_right (fun q acc => worst (read_verdict hv compat (ph_cur ph) floor q) acc) None (ph_reads ph).
 
-(* "returns the same answer whenever it is asked again": same read, both phases, revision fixed and
-   readable in phase 1, not below the floor of phase 2 *)
+(* "returns the same answer whenever it is asked again": the same read in two consecutive phases
+   (the driver re-issues the reads of a phase, in order, at the start of the next one), revision
+   explicit, readable in the earlier phase, not below the floor of the later one *)
 Definition same_answer (q1 q2 : c03_read) : bool :=
   match q1, q2 with
   | QGet k r (GetResp _ kv), QGet k' r' (GetResp _ kv') => negb (beqb k k' && (r =? r')) || opt_eqb vn_eqb kv kv'
   | QList a b r l (LResp _ kvs m), QList a' b' r' l' (LResp _ kvs' m') =>
       negb (beqb a a' && beqb b b' && (r =? r') && (l =? l')%Z) || (list_eqb okv_eqb kvs kvs' && Bool.eqb m m')
+  | QStream a b r out, QStream a' b' r' out' =>
+      negb (beqb a a' && beqb b b' && (r =? r')) || list_eqb okv_eqb (stream_kvs out) (stream_kvs out')
   | _, _ => true
   end.
-Definition read_rev (q : c03_read) : N := match q with QGet _ r _ => r | QList _ _ r _ _ => r | QCount _ _ _ => 0 end.
+Definition read_rev (q : c03_read) : N :=
+  match q with QGet _ r _ => r | QList _ _ r _ _ => r | QCount _ _ _ => 0 | QStream _ _ r _ => r end.
 
-Fixpoint stable_verdict (compat : bool) (cur1 cur2 floor2 : N) (r1 r2 : list c03_read) : bool :=
+Fixpoint stable_verdict (compat : bool) (hv1 hv2 : list (@vrec (option bytes))) (cur1 cur2 floor2 : N) (r1 r2 : list c03_read) : bool :=
   match r1, r2 with
   | q1 :: t1, q2 :: t2 =>
-      (negb ((0 <? read_rev q1) && in_scope compat cur1 0 q1 && in_scope compat cur2 floor2 q2) || same_answer q1 q2)
-      && stable_verdict compat cur1 cur2 floor2 t1 t2
+      (negb ((0 <? read_rev q1) && in_scope compat hv1 cur1 0 q1 && in_scope compat hv2 cur2 floor2 q2) || same_answer q1 q2)
+      && stable_verdict compat hv1 hv2 cur1 cur2 floor2 t1 t2
   | _, _ => true
   end.
 
 Definition has_marker (hv : list (@vrec (option bytes))) : bool := negb (no_markerb hv).
 
-Definition c03_oracle (c : c03_case) : option N :=
-  let hv1 := hist_versions (c_ops1 c) in
-  let hv2 := hist_versions (c_ops1 c ++ c_ops2 c) in
-  let v := worst (phase_verdict hv1 (c_compat c) 0 (c_ph1 c)) (phase_verdict hv2 (c_compat c) (c_floor c) (c_ph2 c)) in
-  match v with
-  | Some 0 => Some 0
-  | _ =>
-      if stable_verdict (c_compat c) (ph_cur (c_ph1 c)) (ph_cur (c_ph2 c)) (c_floor c) (ph_reads (c_ph1 c)) (ph_reads (c_ph2 c))
-      then v
-      else Some 0
+(* prev = the previous phase with the history up to it *)
+Fixpoint phases_verdict (compat : bool) (acc : list wop) (F : N) (prev : option (c03_phase * list wop)) (phs : list c03_phase) : option N :=
+  match phs with
+  | [] => None
+  | ph :: t =>
+      let ops := acc ++ ph_ops ph in
+      let hv := hist_versions ops in
+      let F' := N.max F (ph_floor ph) in
+      let v := phase_verdict hv compat F' ph in
+      let st := match prev with
+                | Some (p, pops) =>
+                    if stable_verdict compat (hist_versions pops) hv (ph_cur p) (ph_cur ph) F' (ph_reads p) (ph_reads ph) then None else Some 0
+                | None => None
+                end in
+      worst (worst v st) (phases_verdict compat ops F' (Some (ph, ops)) t)
   end.
+
+Definition c03_oracle (c : c03_case) : option N := phases_verdict (c_compat c) [] 0 None (c_phases c).
